@@ -63,6 +63,8 @@ def run(chk):
     thorough = chk.tier == "thorough"
     binary = vlib.harness_build()
     cl.model_check_stream(chk)
+    if thorough:
+        cl.apalache_inductive(chk)
     ppt, rcm = cl.calibrate(chk, binary)
     sc = cl.gen_scenarios(chk, "C09", thorough, ppt, rcm)
     walks = multi_fault(chk.seed, 5000 if thorough else 200)
